@@ -255,6 +255,20 @@ def run_case(src, fmt, opts, tmp, with_queries, out, cfg, seen):
         k = next((i for i, (p, q) in enumerate(zip(a, b)) if p != q), min(len(a), len(b)))
         fail('C16.repeatable', osite + (':after-queries' if with_queries else ':immediately'),
              'second output differs at line %d: %r vs %r' % (k + 1, (a[k] if k < len(a) else '<eof>')[:60], (b[k] if k < len(b) else '<eof>')[:60]))
+    # composing over an existing, longer file: the result must be the new text alone (no stale tail of the old content)
+    f3 = os.path.join(tmp, 'out3.' + fmt)
+    with open(f3, 'w') as fh:
+        fh.write(t1 + '\n' + '# stale content of an earlier, longer export\n' * 64)
+    try:
+        with contextlib.redirect_stdout(io.StringIO()):
+            sdn.compose(n, f3, **opts)
+        t3 = open(f3).read()
+        out['evaluations'] += 1
+        if strip_ts(t3) != strip_ts(t1):
+            fail('C16.incomplete', osite + ':over-existing-file', 'composing over an existing longer file left %d characters where a fresh path gets %d; tail: %r'
+                 % (len(t3), len(t1), t3[-40:]))
+    except EXC as e:
+        fail('C16.repeatable', osite + ':over-existing-file-raises', 'composing over an existing file raised %s: %s' % (type(e).__name__, str(e)[:80]))
     after2 = irlib.snapshot(objs, index)
     out['evaluations'] += 1
     if after2 != after:
